@@ -558,6 +558,7 @@ using namespace sk::detail;
 extern "C" {
 
 int socket(int domain, int type, int protocol) {
+    KernelQuiet kq__;
     if (!sim()) { REAL(socket); return real_fn(domain, type, protocol); }
     preempt_point();
     Proc& p = cur_proc();
@@ -577,6 +578,7 @@ int socket(int domain, int type, int protocol) {
 }
 
 int bind(int fd, const struct sockaddr* addr, socklen_t len) {
+    KernelQuiet kq__;
     auto s = sock_of(fd);
     if (!s) { if (sim() && is_sim_fd(fd)) return fail(EBADF); REAL(bind); return real_fn(fd, addr, len); }
     Addr a;
@@ -591,6 +593,7 @@ int bind(int fd, const struct sockaddr* addr, socklen_t len) {
 }
 
 int listen(int fd, int backlog) {
+    KernelQuiet kq__;
     auto s = sock_of(fd);
     if (!s) { if (sim() && is_sim_fd(fd)) return fail(EBADF); REAL(listen); return real_fn(fd, backlog); }
     const auto host = host_of(s->pid);
@@ -638,15 +641,18 @@ static int do_accept(int fd, struct sockaddr* addr, socklen_t* len, int flags) {
 }
 
 int accept(int fd, struct sockaddr* addr, socklen_t* len) {
+    KernelQuiet kq__;
     if (!sim() || !is_sim_fd(fd)) { if (sim()) return fail(EBADF); REAL(accept); return real_fn(fd, addr, len); }
     return do_accept(fd, addr, len, 0);
 }
 int accept4(int fd, struct sockaddr* addr, socklen_t* len, int flags) {
+    KernelQuiet kq__;
     if (!sim() || !is_sim_fd(fd)) { if (sim()) return fail(EBADF); REAL(accept4); return real_fn(fd, addr, len, flags); }
     return do_accept(fd, addr, len, flags);
 }
 
 int connect(int fd, const struct sockaddr* addr, socklen_t len) {
+    KernelQuiet kq__;
     auto s = sock_of(fd);
     if (!s) { if (sim()) return fail(EBADF); REAL(connect); return real_fn(fd, addr, len); }
     Addr dst;
@@ -717,6 +723,7 @@ int connect(int fd, const struct sockaddr* addr, socklen_t len) {
 }
 
 ssize_t send(int fd, const void* buf, size_t len, int flags) {
+    KernelQuiet kq__;
     auto s = sock_of(fd);
     if (!s) { if (sim() && is_sim_fd(fd)) return fail(EBADF); REAL(send); return real_fn(fd, buf, len, flags); }
     preempt_point();
@@ -726,6 +733,7 @@ ssize_t send(int fd, const void* buf, size_t len, int flags) {
 }
 
 ssize_t recv(int fd, void* buf, size_t len, int flags) {
+    KernelQuiet kq__;
     auto s = sock_of(fd);
     if (!s) { if (sim() && is_sim_fd(fd)) return fail(EBADF); REAL(recv); return real_fn(fd, buf, len, flags); }
     preempt_point();
@@ -735,6 +743,7 @@ ssize_t recv(int fd, void* buf, size_t len, int flags) {
 }
 
 ssize_t sendto(int fd, const void* buf, size_t len, int flags, const struct sockaddr* to, socklen_t tolen) {
+    KernelQuiet kq__;
     auto s = sock_of(fd);
     if (!s) { if (sim() && is_sim_fd(fd)) return fail(EBADF); REAL(sendto); return real_fn(fd, buf, len, flags, to, tolen); }
     preempt_point();
@@ -748,6 +757,7 @@ ssize_t sendto(int fd, const void* buf, size_t len, int flags, const struct sock
 }
 
 ssize_t recvfrom(int fd, void* buf, size_t len, int flags, struct sockaddr* from, socklen_t* fromlen) {
+    KernelQuiet kq__;
     auto s = sock_of(fd);
     if (!s) { if (sim() && is_sim_fd(fd)) return fail(EBADF); REAL(recvfrom); return real_fn(fd, buf, len, flags, from, fromlen); }
     preempt_point();
@@ -762,6 +772,7 @@ ssize_t recvfrom(int fd, void* buf, size_t len, int flags, struct sockaddr* from
 }
 
 int shutdown(int fd, int how) {
+    KernelQuiet kq__;
     auto s = sock_of(fd);
     if (!s) { if (sim() && is_sim_fd(fd)) return fail(EBADF); REAL(shutdown); return real_fn(fd, how); }
     tracef("shutdown fd %d how %d", fd, how);
@@ -780,6 +791,7 @@ int shutdown(int fd, int how) {
 }
 
 int close(int fd) {
+    KernelQuiet kq__;
     if (is_sim_fd(fd) && K.active) {
         auto s = sock_of(fd);
         if (!s) return fail(EBADF);
@@ -792,6 +804,7 @@ int close(int fd) {
 }
 
 int setsockopt(int fd, int level, int name, const void* val, socklen_t len) {
+    KernelQuiet kq__;
     auto s = sock_of(fd);
     if (!s) { if (sim() && is_sim_fd(fd)) return fail(EBADF); REAL(setsockopt); return real_fn(fd, level, name, val, len); }
     if (level == SOL_SOCKET && (name == SO_RCVTIMEO || name == SO_SNDTIMEO) && val && len >= sizeof(timeval)) {
@@ -802,12 +815,14 @@ int setsockopt(int fd, int level, int name, const void* val, socklen_t len) {
     return 0;
 }
 int getsockopt(int fd, int level, int name, void* val, socklen_t* len) {
+    KernelQuiet kq__;
     auto s = sock_of(fd);
     if (!s) { if (sim() && is_sim_fd(fd)) return fail(EBADF); REAL(getsockopt); return real_fn(fd, level, name, val, len); }
     if (val && len && *len >= sizeof(int)) { *static_cast<int*>(val) = 0; *len = sizeof(int); }
     return 0;
 }
 int getsockname(int fd, struct sockaddr* addr, socklen_t* len) {
+    KernelQuiet kq__;
     auto s = sock_of(fd);
     if (!s) { if (sim() && is_sim_fd(fd)) return fail(EBADF); REAL(getsockname); return real_fn(fd, addr, len); }
     Addr a = s->local;
@@ -816,6 +831,7 @@ int getsockname(int fd, struct sockaddr* addr, socklen_t* len) {
     return 0;
 }
 int getpeername(int fd, struct sockaddr* addr, socklen_t* len) {
+    KernelQuiet kq__;
     auto s = sock_of(fd);
     if (!s) { if (sim() && is_sim_fd(fd)) return fail(EBADF); REAL(getpeername); return real_fn(fd, addr, len); }
     if (!s->connected) return fail(ENOTCONN);
@@ -824,6 +840,7 @@ int getpeername(int fd, struct sockaddr* addr, socklen_t* len) {
 }
 
 int fcntl(int fd, int cmd, ...) {
+    KernelQuiet kq__;
     va_list ap;
     va_start(ap, cmd);
     const long arg = va_arg(ap, long);
@@ -842,6 +859,7 @@ int fcntl(int fd, int cmd, ...) {
     }
 }
 int fcntl64(int fd, int cmd, ...) {
+    KernelQuiet kq__;
     va_list ap;
     va_start(ap, cmd);
     const long arg = va_arg(ap, long);
@@ -851,6 +869,7 @@ int fcntl64(int fd, int cmd, ...) {
 
 // ---- epoll / eventfd
 int epoll_create1(int flags) {
+    KernelQuiet kq__;
     if (!sim()) { REAL(epoll_create1); return real_fn(flags); }
     auto s = std::make_shared<Sock>();
     s->kind = Sock::Epoll;
@@ -861,6 +880,7 @@ int epoll_create1(int flags) {
 int epoll_create(int) { return epoll_create1(0); }
 
 int epoll_ctl(int epfd, int op, int fd, struct epoll_event* ev) {
+    KernelQuiet kq__;
     auto e = sock_of(epfd);
     if (!e) { if (sim() && is_sim_fd(epfd)) return fail(EBADF); REAL(epoll_ctl); return real_fn(epfd, op, fd, ev); }
     if (e->kind != Sock::Epoll) return fail(EINVAL);
@@ -883,6 +903,7 @@ int epoll_ctl(int epfd, int op, int fd, struct epoll_event* ev) {
 }
 
 int epoll_wait(int epfd, struct epoll_event* events, int maxevents, int timeout) {
+    KernelQuiet kq__;
     auto e = sock_of(epfd);
     if (!e) { if (sim() && is_sim_fd(epfd)) return fail(EBADF); REAL(epoll_wait); return real_fn(epfd, events, maxevents, timeout); }
     if (e->kind != Sock::Epoll || maxevents <= 0) return fail(EINVAL);
@@ -925,10 +946,12 @@ int epoll_wait(int epfd, struct epoll_event* events, int maxevents, int timeout)
     }
 }
 int epoll_pwait(int epfd, struct epoll_event* events, int maxevents, int timeout, const sigset_t*) {
+    KernelQuiet kq__;
     return epoll_wait(epfd, events, maxevents, timeout);
 }
 
 int eventfd(unsigned int initval, int flags) {
+    KernelQuiet kq__;
     if (!sim()) { REAL(eventfd); return real_fn(initval, flags); }
     auto s = std::make_shared<Sock>();
     s->kind = Sock::Event;
@@ -945,6 +968,7 @@ ssize_t sk_fs_write(int fd, const void* buf, size_t len);
 ssize_t sk_fs_read(int fd, void* buf, size_t len);
 
 ssize_t read(int fd, void* buf, size_t len) {
+    KernelQuiet kq__;
     auto s = sock_of(fd);
     if (!s) {
         if (sim() && is_sim_fd(fd)) return fail(EBADF);
@@ -970,6 +994,7 @@ ssize_t read(int fd, void* buf, size_t len) {
 }
 
 ssize_t write(int fd, const void* buf, size_t len) {
+    KernelQuiet kq__;
     auto s = sock_of(fd);
     if (!s) {
         if (sim() && is_sim_fd(fd)) return fail(EBADF);
@@ -991,6 +1016,7 @@ struct SkAddrinfoBlock { addrinfo ai; sockaddr_storage ss; };
 static std::set<addrinfo*>& my_addrinfos() { static std::set<addrinfo*> s; return s; }
 
 int getaddrinfo(const char* node, const char* service, const struct addrinfo* hints, struct addrinfo** res) {
+    KernelQuiet kq__;
     if (!sim()) { REAL(getaddrinfo); return real_fn(node, service, hints, res); }
     preempt_point();
     std::vector<std::string> addrs;
@@ -1043,6 +1069,7 @@ int getaddrinfo(const char* node, const char* service, const struct addrinfo* hi
 }
 
 void freeaddrinfo(struct addrinfo* ai) {
+    KernelQuiet kq__;
     if (ai && my_addrinfos().count(ai)) {
         while (ai) {
             addrinfo* next = ai->ai_next;
